@@ -12,7 +12,7 @@ RULE = ("construction programs: a pool of expressions shared between several com
         "model is compared with the implementation on the composites; non-trivial = a pool member used in >= 2 composites")
 TRUSTED = pcommon.TRUSTED_PARSE
 
-INPUTS = ["", "a", "ab", "a b", "ab ab", " a", "a,b", "aab", "ba", "a a a a", "(a)", "ab,ab ,a", ",a", "\na", ",ab ,a", "\nab a", "a\nb", "\tab,b", "\n ", " \nab"]
+INPUTS = ["", "a", "ab", "a b", "ab ab", " a", "a,b", "aab", "ba", "a a a a", "(a)", "ab,ab ,a", ",a", "\na", ",ab ,a", "\nab a", "a\nb", "\tab,b", "\n ", " \nab", "/*c*/a", "a /*c*/ b", "#ab", "/* c */ ab,ab"]
 
 
 def pool():
@@ -38,9 +38,17 @@ def _fwd():
 def behaviour(e):
     import pyparsing as pp
     out = []
+    spins = 0
     for s in INPUTS:
+        if spins >= 2:
+            out.append(("div",))        # an element that spins (repetition of something nullable) spins on every input: do not wait 24 times
+            continue
         try:
-            r = e.parse_string(s)
+            r = _one_parse(e, s)
+            if r == "timeout":
+                spins += 1
+                out.append(("div",))
+                continue
             out.append(("ok", r.as_list(), sorted(r.as_dict().items(), key=repr)))
         except pp.ParseBaseException as x:
             out.append(("err", type(x).__name__, x.loc))
@@ -49,6 +57,25 @@ def behaviour(e):
         except Exception as x:
             out.append(("other", type(x).__name__))
     return out
+
+
+def _one_parse(e, s):
+    """one parse under its own short alarm (the real parser loops forever on a repetition whose body matches empty)"""
+    import signal
+
+    def on(sig, frm):
+        raise _T()
+    old = signal.signal(signal.SIGALRM, on)
+    try:
+        try:
+            signal.setitimer(signal.ITIMER_REAL, 0.4)
+            return e.parse_string(s)
+        finally:
+            signal.setitimer(signal.ITIMER_REAL, 0)
+    except _T:
+        return "timeout"
+    finally:
+        signal.signal(signal.SIGALRM, old)
 
 
 def structure(e):
@@ -60,7 +87,8 @@ def structure(e):
 
 
 def apply_op(rng, pp, a, b):
-    ops = ["add", "or", "xor", "and", "inv", "sub", "mul2", "get13", "ell", "get1", "call", "callname", "copy", "setname", "radd", "oremp", "skip", "stop"]
+    ops = ["add", "or", "xor", "and", "inv", "sub", "mul2", "get13", "ell", "get1", "call", "callname", "copy", "setname", "radd", "oremp", "skip", "stop",
+           "copy.ignore", "call.ws", "callname.ignore", "copy.leavews", "copy.action"]
     op = rng.choice(ops)
     if op == "add": return op, a + b
     if op == "or": return op, a | b
@@ -80,6 +108,12 @@ def apply_op(rng, pp, a, b):
     if op == "oremp": return op, a | ""
     if op == "skip": return op, a + ... + b
     if op == "stop": return op, a[...:b]
+    # a copy is configured afterwards: the original (and every other composite holding it) must not notice
+    if op == "copy.ignore": return op, a.copy().ignore(pp.c_style_comment)
+    if op == "call.ws": return op, a().set_whitespace_chars(" ,")
+    if op == "callname.ignore": return op, a("z*").ignore("#")
+    if op == "copy.leavews": return op, a.copy().leave_whitespace()
+    if op == "copy.action": return op, a.copy().add_parse_action(lambda t: ["X"])
     raise ValueError(op)
 
 
@@ -132,7 +166,10 @@ def program(ctx, rng, steps):
             now = (behaviour(e), structure(e))
             if now != before[n]:
                 what = "behaviour" if now[0] != before[n][0] else "attributes"
-                bad.append(("operand-changed:%s:%s" % (n, what),
+                # F-12c: ParserElement.copy() of a ParseElementEnhance / Forward is shallow (the copy shares `.expr`), and ignore()
+                # recurses into `.expr` in place - so ignore() on the COPY of a wrapper reaches the original's content
+                wrapper_ignore = trace[-1][1] in ("copy.ignore", "callname.ignore") and any(hasattr(x, "expr") and not hasattr(x, "exprs") for x in a.visit_all())
+                bad.append(("operand-changed:ignore-on-copy-of-wrapper-reaches-shared-content" if wrapper_ignore else "operand-changed:%s:%s" % (n, what),
                             "after %r the pool member %r changed its %s: before %r, after %r" % (
                                 trace[-3:], n, what, [x for x, y in zip(before[n][0], now[0]) if x != y][:2] or before[n][1],
                                 [y for x, y in zip(before[n][0], now[0]) if x != y][:2] or now[1]),
@@ -174,16 +211,17 @@ def composite_copy_checks(ctx):
                     continue
                 if used_first:
                     behaviour(c)          # streamlined before it is copied
-                for how, cp in (("copy()", lambda: c.copy()), ("expr()", lambda: c()), ("expr('k')", lambda: c("k")),
-                                ("set_results_name('k')", lambda: c.set_results_name("k")), ("copy of enclosing Group", lambda: pp.Group(c).copy())):
+                hows = (("copy()", lambda: c.copy()), ("expr()", lambda: c()), ("expr('k')", lambda: c("k")),
+                        ("set_results_name('k')", lambda: c.set_results_name("k")), ("copy of enclosing Group", lambda: pp.Group(c).copy()))
+                for how, cp in (hows[:1] if used_first else hows):
                     try:
                         d = cp()
                     except Exception as x:
                         ctx.violation("composite-copy-raises:%s:%s" % (n, sname), "%s of %s with m=%s raises %s" % (how, sname, n, type(x).__name__),
                                       {"kind": "composite-copy"})
                         continue
-                    b0 = guarded(lambda: strip(behaviour(pp.Group(c) if how.startswith("copy of") else c)))
-                    b1 = guarded(lambda: strip(behaviour(d)))
+                    b0 = strip(behaviour(pp.Group(c) if how.startswith("copy of") else c))
+                    b1 = strip(behaviour(d))
                     ctx.case("composite-copy:%s:%s:%s:%d" % (n, sname, how, used_first), True, True)
                     if b0 != b1 and "timeout" not in (b0, b1):
                         diff = [(s, x, y) for s, x, y in zip(INPUTS, b0, b1) if x != y][:2]
@@ -256,7 +294,7 @@ def correspond(ctx):
     sugar_checks(ctx)
     nprog = 40 if not ctx.thorough else 400
     for p in range(nprog):
-        res = guarded(lambda: program(ctx, rng, 14), 20.0)
+        res = program(ctx, rng, 14)          # every parse inside has its own alarm (behaviour / _one_parse)
         if res == "timeout" or res is None:
             ctx.stat("program_timeouts")
             continue
@@ -280,7 +318,7 @@ def search(ctx, reasons):
     rng = random.Random(ctx.seed + 1212)
     t0 = time.time()
     while time.time() - t0 < (90 if not ctx.thorough else 600):
-        res = guarded(lambda: program(ctx, rng, 20), 20.0)
+        res = program(ctx, rng, 20)
         ctx.stat("search_programs")
         if res not in ("timeout", None) and res[0]:
             for k, what, rep in res[0]:
